@@ -243,6 +243,14 @@ func runC09(t *Tape, st *Stats, tier string) *RunResult {
 	if tier == "thorough" {
 		prof.BigBodyPct *= 3
 	}
+	if t.Bool(20) {
+		// several callers share the validator, client, fetcher and cache, some
+		// arriving later, the cancellation possibly meant for one of them only:
+		// whatever the others do or suffer, every call terminates
+		prof.MaxCallers = 6
+		prof.StaggerPct = 50
+		st.Probes["c09_several_callers"]++
+	}
 	sc := GenRevScenario(t, prof)
 	rr := &RunResult{}
 	rc := &ruleCtx{props: map[string]bool{"C09": true}, st: st, ante: map[string]bool{}}
@@ -406,6 +414,7 @@ func profC17() *RevProfile {
 	p.LatMax = 400
 	p.MaxCallers = 8
 	p.StaggerPct = 35
+	p.SharedClientPct = 30
 	// schedules, not key types, are the subject: mostly the fast P-256 (signing
 	// dominates the cost of a bubble), the other kinds stay in the mix
 	p.KeyW = []int{88, 4, 4, 2, 2}
